@@ -2,6 +2,7 @@ package rules
 
 import (
 	"go/ast"
+	"go/token"
 	"go/types"
 	"strings"
 
@@ -17,6 +18,11 @@ func init() {
 			"parallel fetches and defer groups use a plain errgroup.Group (siblings are never cancelled) that is joined on every path; a failed single-flight leader always releases its followers. " +
 			"It does not decide that unaffected data is identical nor that requests under fault are a subset of the fault-free requests (value level).",
 		Mutants: []Mutant{
+			{Name: "an entity array without any element counts as a null entity (reverts part of the F74 fix)", File: "v2/pkg/engine/resolve/loader.go", Rule: "C07-R11", Key: "isEmptyEntityFetch/benign-only-with-an-element",
+				Old: "entitiesData.Type() == astjson.TypeArray && len(entitiesData.GetArray()) > 0 {", New: "entitiesData.Type() == astjson.TypeArray {"},
+			{Name: "the null-entity exit is taken before the status code is looked at (reverts part of the F74 fix)", File: "v2/pkg/engine/resolve/loader.go", Rule: "C07-R11", Key: "Loader.mergeResult/benign-exit-after-status-fallback",
+				Old: "\t\tif res.multi == nil && isEmptyEntityFetch(fetchItem, response) {\n\t\t\treturn nil\n\t\t}\n", New: "",
+				Also: [][2]string{{"\t\t// A response without errors and with a status code outside the 2XX range is a failed fetch,\n", "\t\tif res.multi == nil && isEmptyEntityFetch(fetchItem, response) {\n\t\t\treturn nil\n\t\t}\n\t\t// A response without errors and with a status code outside the 2XX range is a failed fetch,\n"}}},
 			{Name: "decode error of a subgraph's errors array returned as the operation's error (reverts the F43 fix)", File: "v2/pkg/engine/resolve/loader.go", Rule: "C07-R10", Key: "Loader.appendSubgraphError/decode-error-of-subgraph-errors-not-returned",
 				Old: "\t\tgraphqlErrors = graphqlErrors[:0]\n", New: "\t\treturn errors.WithStack(err)\n"},
 			{Name: "single-flight leader no longer stores its error in the shared item (seeded change C07-21)", File: "v2/pkg/engine/resolve/loader.go", Rule: "C07-R9", Key: "Loader.loadByContext/leader-publishes-error",
@@ -51,6 +57,7 @@ func init() {
 }
 
 func runC07(r *fw.Run) {
+	defer c07EmptyEntityFetchIsNotBenign(r)
 	p := r.Prog
 	pk := p.Pkg("resolve")
 	if pk == nil {
@@ -816,4 +823,118 @@ func c07MalformedSubgraphErrorsStaySoft(r *fw.Run) {
 		}
 	}
 	r.Expect("C07-R10", "decodes of subgraph-controlled bytes in Loader methods", n, 1)
+}
+
+// c07EmptyEntityFetchIsNotBenign (R11): "the entity that was asked for is null" is a legitimate answer of an entity fetch
+// and ends mergeResult without an error. Two things are not that answer: an `_entities` array without any element (one
+// representation was sent, nothing came back) and a response with a status outside 2XX and no errors of its own. The
+// predicate that recognises the benign case returns true only where the entities array is known to be non-empty, and
+// mergeResult consults it only after the status-code fallback has been considered (the status was compared with 300 and
+// found below, or the response has errors of its own — one correlated fact over the atoms of the guard).
+func c07EmptyEntityFetchIsNotBenign(r *fw.Run) {
+	p := r.Prog
+	r.Rule("C07-R11", "the benign exit of mergeResult for a null entity is taken only after the status-code fallback was considered, and the predicate behind it answers true only for an entities array with at least one element")
+	pred := p.Func("resolve", "isEmptyEntityFetch")
+	if pred == nil {
+		r.Error("C07-R11: isEmptyEntityFetch not found")
+		return
+	}
+	// (a) the predicate
+	{
+		info := pred.Info()
+		bad := ""
+		nTrue := 0
+		in := fw.NewInterp(pred)
+		in.H = fw.Hooks{
+			Cond: func(e ast.Expr, branch bool, st *fw.State) {
+				if a := fw.Atom(info, e, branch); a.Kind == "NonEmpty" {
+					st.Set("nonempty")
+				}
+			},
+			Exit: func(ret *ast.ReturnStmt, lit *ast.FuncLit, st *fw.State) {
+				if lit != nil || ret == nil || !in.Final() || len(ret.Results) != 1 {
+					return
+				}
+				if v, isConst := fw.ConstVal(info, ret.Results[0]); isConst && v == "false" {
+					return
+				}
+				nTrue++
+				if !st.Must("nonempty") {
+					bad = p.Pos(ret.Pos())
+				}
+			},
+		}
+		in.Run(nil)
+		r.Check(bad == "" && nTrue > 0, "C07-R11", "isEmptyEntityFetch/benign-only-with-an-element", p.Pos(pred.Decl.Pos()), "isEmptyEntityFetch answers true only where the entities array is known to have an element",
+			"isEmptyEntityFetch answers true ("+bad+") without knowing that `_entities` has an element: {\"data\":{\"_entities\":[]}} for one representation ends mergeResult as if the entity were null — no error is reported although nothing came back")
+	}
+	// (b) the call site
+	n := 0
+	for _, fi := range p.Funcs("resolve") {
+		info := fi.Info()
+		has := false
+		fw.WalkAll(fi.Decl.Body, func(nd ast.Node) bool {
+			if c, ok := nd.(*ast.CallExpr); ok && fw.Callee(info, c) == pred.Obj {
+				has = true
+			}
+			return true
+		})
+		if !has {
+			continue
+		}
+		// the variables that say "the response has errors of its own": the ones the status-code guard negates (found in the
+		// guard itself, not by name)
+		ownErrors := map[types.Object]bool{}
+		fw.WalkAll(fi.Decl.Body, func(nd ast.Node) bool {
+			is, ok := nd.(*ast.IfStmt)
+			if !ok {
+				return true
+			}
+			mentionsStatus := false
+			fw.WalkAll(is.Cond, func(m ast.Node) bool {
+				if sel, isSel := m.(*ast.SelectorExpr); isSel && fw.IsFieldSel(info, sel, "resolve", "result", "statusCode") {
+					mentionsStatus = true
+				}
+				return true
+			})
+			if !mentionsStatus {
+				return true
+			}
+			fw.WalkAll(is.Cond, func(m ast.Node) bool {
+				if u, isNot := m.(*ast.UnaryExpr); isNot && u.Op == token.NOT {
+					if id, isID := ast.Unparen(u.X).(*ast.Ident); isID && info.ObjectOf(id) != nil {
+						ownErrors[info.ObjectOf(id)] = true
+					}
+				}
+				return true
+			})
+			return true
+		})
+		in := fw.NewInterp(fi)
+		in.H = fw.Hooks{
+			Lit: func(l *ast.FuncLit, ctx fw.LitCtx, st *fw.State) fw.LitMode { return fw.LitSkip },
+			Cond: func(e ast.Expr, branch bool, st *fw.State) {
+				a := fw.Atom(info, e, branch)
+				// status compared with 300 and found below it
+				if a.Kind == "Lt" && fw.IsFieldSel(info, a.X, "resolve", "result", "statusCode") {
+					if v, isConst := fw.ConstVal(info, a.Y); isConst && v == "300" {
+						st.Set("fallback-considered")
+					}
+				}
+				// the response has errors of its own (the fallback does not apply)
+				if id, isID := ast.Unparen(a.X).(*ast.Ident); isID && a.Kind == "True" && ownErrors[info.ObjectOf(id)] {
+					st.Set("fallback-considered")
+				}
+			},
+			Node: func(nd ast.Node, st *fw.State) {
+				if c, ok := nd.(*ast.CallExpr); ok && in.Final() && fw.Callee(info, c) == pred.Obj {
+					n++
+					r.Check(st.Must("fallback-considered"), "C07-R11", fi.Name()+"/benign-exit-after-status-fallback", p.Pos(c.Pos()), fi.Name()+" asks whether the entity is null only after the status-code fallback was considered",
+						fi.Name()+" takes the benign null-entity exit before looking at the status code: an entity fetch answered with HTTP 500 and {\"data\":{\"_entities\":[…]}} produces no error at all")
+				}
+			},
+		}
+		in.Run(nil)
+	}
+	r.Expect("C07-R11", "call sites of the null-entity predicate", n, 1)
 }
